@@ -108,8 +108,8 @@ def JB.writeString (j : JB) (key val : Bytes) : JB :=
 
 def JB.writeInferred (j : JB) (key val : Bytes) : JB :=
   if isNumeric val then j.writeLiteral key val
-  else if equalFoldLen val (ascii "true") then j.writeLiteral key (ascii "true")
-  else if equalFoldLen val (ascii "false") then j.writeLiteral key (ascii "false")
+  else if equalFoldLen val litTrue then j.writeLiteral key litTrue
+  else if equalFoldLen val litFalse then j.writeLiteral key litFalse
   else j.writeString key val
 
 /-! ### sorted iteration over a map -/
